@@ -12,6 +12,7 @@ type EvGen struct {
 	r      *Rng
 	nextID int
 	made   []*mocrelay.Event
+	uniq   int // counter for one-of-a-kind tag values
 }
 
 func ptr[T any](v T) *T { return &v }
@@ -33,6 +34,14 @@ func (g *EvGen) tags(kind int64) []mocrelay.Tag {
 		default:
 			tags = append(tags, mocrelay.Tag{name, pick(r, tagVals)})
 		}
+	}
+	if r.P(5) {
+		// the same tag twice (name and value), with a value nobody else uses, and a further one-of-a-kind tag after
+		// it: index entries that hold exactly this event, visited twice when the event leaves the store
+		g.uniq++
+		u := fmt.Sprintf("u%d", g.uniq)
+		dup := mocrelay.Tag{pick(r, []string{"t", "p", "e"}), u}
+		tags = append(tags, dup, append(mocrelay.Tag{}, dup...), mocrelay.Tag{pick(r, []string{"t", "p", "a"}), u + "z"})
 	}
 	if 30000 <= kind && kind < 40000 && r.P(85) {
 		d := mocrelay.Tag{"d", pick(r, dvals)}
@@ -290,6 +299,18 @@ func (g *EvGen) selfDeletion() []*mocrelay.Event {
 func (g *EvGen) Filter() *mocrelay.ReqFilter {
 	r := g.r
 	f := &mocrelay.ReqFilter{}
+	if len(g.made) > 0 && r.P(6) {
+		// one tag condition taken from an event that was made (stored, deleted, replaced or evicted since): its
+		// last single-letter tag with a value
+		x := pick(r, g.made)
+		for i := len(x.Tags) - 1; i >= 0; i-- {
+			t := x.Tags[i]
+			if len(t) >= 2 && len(t[0]) == 1 && (('a' <= t[0][0] && t[0][0] <= 'z') || ('A' <= t[0][0] && t[0][0] <= 'Z')) {
+				f.Tags = map[string][]string{t[0]: {t[1]}}
+				return f
+			}
+		}
+	}
 	if len(g.made) > 0 && r.P(6) {
 		// "fetch this address": one author, one kind and — for an addressable event — one d value, which may be
 		// ANY of the event's d tags (a tag condition matches any tag of that name, not only the first)
